@@ -2,6 +2,8 @@ import PW.Proofs.LayoutLemmas
 import PW.Proofs.RoutingLemmas
 import PW.Proofs.RoutingLemmas2
 import PW.Proofs.KronFactor
+import PW.Proofs.NoSignal
+import PW.Proofs.Adequacy
 /-!
 # C20 — product spaces are joined only when needed; bystander blocks are untouched
 
@@ -12,6 +14,7 @@ single subsystem outside every product space changes no block; measured subsyste
 block and nothing else moves.
 -/
 namespace PW.Props.C20
+open scoped Matrix
 open PW.Layout
 
 theorem bystander_untouched_by_combine (l : Layout) (c : Nat) (T : List Nat) (b : Block) (hb : b ∈ l)
@@ -78,6 +81,23 @@ theorem actions_on_different_subsystems_commute {R : Type} [CommRing R] [StarRin
       = PW.Spec.applyOn dims [q] B (PW.Spec.applyOn dims [p] A ρ) (r ++ c) :=
   PW.Spec.applyOn_comm dims p q hp hq hne A B ρ r c hr hc
 
+/-- **no signalling** (Mathlib matrices, addressed part `a`, everything else `b`, any joint state,
+entangled or not): a trace-preserving channel on the addressed part — in particular a unitary
+operation — leaves the reduced state of everything else unchanged -/
+theorem channel_invisible_in_the_rest {a b ι : Type} [Fintype a] [Fintype b] [DecidableEq a] [DecidableEq b]
+    (s : Finset ι) (K : ι → Matrix a a ℂ) (hK : ∑ i ∈ s, (K i)ᴴ * K i = 1) (ρ : Matrix (a × b) (a × b) ℂ) :
+    PW.Channels.ptrace (∑ i ∈ s, PW.Channels.emb (K i) * ρ * (PW.Channels.emb (K i))ᴴ) = PW.Channels.ptrace ρ :=
+  PW.Channels.ptrace_kraus s K hK ρ
+
+/-- the same for the specification's `applyOn` (two factors): a unitary on the first factor does not
+change the reduced state of the second -/
+theorem spec_operation_invisible_in_the_rest {a b : Nat} (O ρ : PW.Tensor ℂ)
+    (hU : (PW.Adequacy.opMatrix (a := a) O)ᴴ * PW.Adequacy.opMatrix (a := a) O = 1) :
+    PW.Channels.ptrace (PW.Adequacy.toMatrix (a := a) (b := b) (PW.Spec.applyOn [a, b] [0] O ρ))
+      = PW.Channels.ptrace (PW.Adequacy.toMatrix (a := a) (b := b) ρ) := by
+  rw [PW.Adequacy.toMatrix_applyOn]
+  exact PW.Channels.ptrace_unitary _ hU _
+
 end PW.Props.C20
 
 #print axioms PW.Props.C20.bystander_untouched_by_combine
@@ -95,3 +115,5 @@ end PW.Props.C20
 #print axioms PW.Props.C20.bystander_untouched_by_resize
 #print axioms PW.Props.C20.bystander_untouched_by_measurement
 #print axioms PW.Props.C20.actions_on_different_subsystems_commute
+#print axioms PW.Props.C20.channel_invisible_in_the_rest
+#print axioms PW.Props.C20.spec_operation_invisible_in_the_rest
